@@ -169,3 +169,69 @@ def matches_propagation(cx, N, Nt):
     cx.prove_eq("trace_preserving", numpy.einsum("taacd->tcd", eso.data),
                 numpy.array([numpy.eye(N, dtype=int)] * Nt))
     cx.prove_eq("hermiticity_preserving", numpy.conj(eso.data), numpy.transpose(eso.data, (0, 2, 1, 4, 3)))
+
+
+@harness("C08", "in_basis_context",
+         quick=[dict(N=2, Nt=2)], thorough=[dict(N=2, Nt=2), dict(N=2, Nt=3)],
+         functions=[F + ":EvolutionSuperOperator.calculate",
+                    "quantarhei/qm/liouvillespace/superoperator.py:SuperOperator.transform",
+                    "quantarhei/core/managers.py:eigenbasis_of.__enter__"],
+         bound="N=2, <=3 grid points, elementary step abstracted to an arbitrary array: a superoperator calculated "
+               "outside any context and read inside eigenbasis_of(H) is the conjugated one at every time (identity at "
+               "t_0, semigroup on the grid hold there too) and is restored on exit",
+         out="")
+def in_basis_context(cx, N, Nt, planes=None):
+    import quantarhei as qr
+    from quantarhei.qm import EvolutionSuperOperator
+    from harness.common import spectral_hamiltonian
+    ham, RT, time, H, R, step = system(cx, N, Nt)
+    Hs, w, S = spectral_hamiltonian(cx, N, planes=planes)
+    ham._data = Hs.copy()
+    eso = EvolutionSuperOperator(time, ham=ham, relt=RT)
+    A = _havoc_step(cx, eso, N)
+    eso.calculate()
+    U_site = eso._data.copy()
+    with qr.eigenbasis_of(ham):
+        Sx = qr.Manager().basis_transformations[-1]
+        U = eso.data
+        for i in range(Nt):
+            ref = numpy.einsum("ia,jb,ijkl,kc,ld->abcd", Sx, Sx, U_site[i], Sx, Sx)
+            cx.prove_eq("inside/conjugated[%d]" % i, U[i], ref, tol=1e-7)
+        cx.prove_eq("inside/identity_at_zero", U[0], identity_sop(N), tol=1e-7)
+        if Nt > 2:
+            cx.prove_eq("inside/semigroup", U[2], numpy.tensordot(U[1], U[1]), tol=1e-7)
+    cx.prove_eq("after/restored", eso._data, U_site, tol=1e-7)
+
+
+@harness("C08", "after_transform",
+         quick=[dict(N=2, Nt=2)], thorough=[dict(N=2, Nt=2)],
+         functions=["quantarhei/qm/liouvillespace/superoperator.py:SuperOperator.transform",
+                    F + ":EvolutionSuperOperator.calculate"],
+         bound="N=2, 2 grid points, elementary step abstracted to an arbitrary array: after transform(S) with an "
+               "arbitrary orthogonal S (the composite transformation of nested contexts is a rotation) the "
+               "superoperator is still the identity at t_0 and each U(t_i) is the conjugated one",
+         out="")
+def after_transform(cx, N, Nt):
+    from quantarhei.qm import EvolutionSuperOperator
+    ham, RT, time, H, R, step = system(cx, N, Nt)
+    eso = EvolutionSuperOperator(time, ham=ham, relt=RT)
+    A = _havoc_step(cx, eso, N)
+    eso.calculate()
+    U_site = eso._data.copy()
+    if cx.sym:
+        from symnum import linalg, npatch
+        S = linalg.givens_orthogonal(N, "S")
+        npatch.tag_inverse(S, S.T.copy())
+    else:
+        c, s_ = cx.real("S.c0", 0.3, 0.9), cx.real("S.s0", 0.3, 0.9)
+        nrm = (c * c + s_ * s_) ** 0.5
+        c, s_ = c / nrm, s_ / nrm
+        S = numpy.array([[c, -s_], [s_, c]])
+        for i in range(N):
+            S[:, i] *= (1.0 if cx.real("S.sg%d" % i) >= 0 else -1.0)
+    eso.transform(S)
+    U = eso._data
+    for i in range(Nt):
+        ref = numpy.einsum("ia,jb,ijkl,kc,ld->abcd", S, S, U_site[i], S, S)
+        cx.prove_eq("conjugated[%d]" % i, U[i], ref, tol=1e-7)
+    cx.prove_eq("identity_at_zero", U[0], identity_sop(N), tol=1e-7)
